@@ -55,6 +55,8 @@ type Task struct {
 	mapP    uintptr
 	mapW    bool
 	mapSite string
+	mapVar  bool // the pending access is a VarOp (update of a variable), not a map access
+	pausing bool // inside an injected pause (no pause within a pause)
 }
 
 func (t *Task) st() state      { return t.state.Load() }
@@ -86,6 +88,11 @@ type Options struct {
 	// PausePermille pause with this probability (a tenth of it before a read),
 	// so that accesses driven by different timers can meet.
 	MapPausePermille int
+	// SpawnPausePermille > 0: right after a go statement the spawning task is,
+	// with this probability, kept off the CPU for 128 / 4000 steps or pauses
+	// for 1 / 20 ms - the new goroutine runs far ahead of its parent, as it
+	// does when it lands on an idle processor.
+	SpawnPausePermille int
 	Log           bool // keep the event log
 	MaxLog        int
 	RotateMaps    bool // permute canonical map iteration order from the stream
@@ -118,7 +125,6 @@ type Sim struct {
 	// Races: unordered conflicting accesses to one map (see MapOp), by map expression
 	Races     map[string]string
 	maps      map[uintptr]*mapState
-	pausing   bool
 	Hash      uint64 // hash of the schedule (task name + ordinal at every branching decision)
 	seq       uint64
 	start     time.Time
@@ -197,6 +203,21 @@ func Go(name string, f func()) {
 		Logf("spawn task %d %s", t.ID, name)
 	}
 	go s.taskMain(t, f)
+	if pm := s.opts.SpawnPausePermille; pm > 0 && s.cur != nil && !s.cur.pausing && s.cur.st() == stRunning {
+		// the new goroutine gets ahead of the one that started it
+		switch v := s.St.Biased(5, 1000-pm, "spawn-pause"); v {
+		case 1, 2:
+			s.cur.parkUntil = s.Steps + []int{0, 128, 4000}[v]
+			s.Parks++
+			Yield()
+		case 3, 4:
+			s.Pauses++
+			me := s.cur
+			me.pausing = true
+			Sleep([]time.Duration{0, 0, 0, time.Millisecond, 20 * time.Millisecond}[v])
+			me.pausing = false
+		}
+	}
 }
 
 func (s *Sim) taskMain(t *Task, f func()) {
@@ -257,12 +278,13 @@ func Yield() {
 	if s.killed {
 		s.dying()
 	}
-	if s.opts.PausePermille > 0 && !s.pausing {
+	if s.opts.PausePermille > 0 && !s.cur.pausing {
 		if v := s.St.Biased(4, 1000-s.opts.PausePermille, "pause"); v > 0 {
 			s.Pauses++
-			s.pausing = true
+			me := s.cur
+			me.pausing = true
 			Sleep([]time.Duration{0, time.Millisecond, 20 * time.Millisecond, 300 * time.Millisecond}[v])
-			s.pausing = false
+			me.pausing = false
 			return
 		}
 	}
@@ -300,20 +322,41 @@ func MapOp(m interface{}, write bool, site string) {
 	if v.Kind() != reflect.Map || v.IsNil() {
 		return
 	}
+	s.access(v.Pointer(), v.UnsafePointer(), write, site, false)
+}
+
+// VarOp is MapOp for a read-modify-write of a variable more than one task can
+// reach: p is the address of x in `x = append(x, ...)`, `x++`, `x += y` (and
+// the other assignment operators). Two tasks that are both about to update the
+// same variable this way are in a write-write data race, and whatever the
+// memory model makes of it, one of the two updates can be lost. Plain reads of
+// the variable are not watched, so a racing reader goes unnoticed.
+func VarOp(p interface{}, site string) {
+	s := S
+	if s == nil || s.killed {
+		return
+	}
+	v := reflect.ValueOf(p)
+	if v.Kind() != reflect.Ptr || v.IsNil() {
+		return
+	}
+	s.access(v.Pointer(), v.UnsafePointer(), true, site, true)
+}
+
+func (s *Sim) access(p uintptr, pin unsafe.Pointer, write bool, site string, isVar bool) {
 	t := s.cur
-	p := v.Pointer()
 	// Only a map that a second task has touched, and that was written since,
 	// can be part of a race from here on; everything else (a map still private
 	// to its creator, a map that is only read once shared - a schema) costs no
-	// scheduling point. The first write to a shared map is thereby not
-	// watched itself. The entry pins the map so that its address is not
+	// scheduling point. A read that precedes the first write to a shared map
+	// is thereby not watched. The entry pins the map so that its address is not
 	// reused within the run (replays must not depend on the collector).
 	ms := s.maps[p]
 	if ms == nil {
 		if s.maps == nil {
 			s.maps = map[uintptr]*mapState{}
 		}
-		ms = &mapState{pin: v.UnsafePointer(), owner: t}
+		ms = &mapState{pin: pin, owner: t}
 		s.maps[p] = ms
 	}
 	if ms.owner != t {
@@ -323,27 +366,29 @@ func MapOp(m interface{}, write bool, site string) {
 		return
 	}
 	if !ms.hot {
-		if write {
-			ms.hot = true
+		if !write {
+			return
 		}
-		return
+		// the first write to a shared map: from here on every access is
+		// watched, this one included (a reader that got here first was not)
+		ms.hot = true
 	}
 	s.MapOps++
 	for _, o := range s.tasks {
-		if o != t && o.mapP == p && (write || o.mapW) && o.st() != stDone {
-			s.noteRace(t, site, write, o)
+		if o != t && o.mapP == p && o.mapVar == isVar && (write || o.mapW) && o.st() != stDone {
+			s.noteRace(t, site, write, o, isVar)
 		}
 	}
-	t.mapP, t.mapW, t.mapSite = p, write, site
-	if pm := s.opts.MapPausePermille; pm > 0 && !s.pausing {
+	t.mapP, t.mapW, t.mapSite, t.mapVar = p, write, site, isVar
+	if pm := s.opts.MapPausePermille; pm > 0 && !t.pausing {
 		if !write {
 			pm /= 10
 		}
 		if v := s.St.Biased(4, 1000-pm, "map-pause"); v > 0 {
 			s.Pauses++
-			s.pausing = true
+			t.pausing = true
 			Sleep([]time.Duration{0, time.Millisecond, 20 * time.Millisecond, 300 * time.Millisecond}[v])
-			s.pausing = false
+			t.pausing = false
 			t.mapP = 0
 			return
 		}
@@ -366,7 +411,7 @@ func accessKind(w bool) string {
 	return "read"
 }
 
-func (s *Sim) noteRace(t *Task, site string, write bool, o *Task) {
+func (s *Sim) noteRace(t *Task, site string, write bool, o *Task, isVar bool) {
 	// site = "<package>.<function>: <map expression>"
 	expr := func(site string) string {
 		if i := strings.Index(site, ": "); i >= 0 {
@@ -382,10 +427,19 @@ func (s *Sim) noteRace(t *Task, site string, write bool, o *Task) {
 	if b != a {
 		key = a + "~" + b
 	}
+	if isVar {
+		key = "update:" + key
+	}
 	if s.Races == nil {
 		s.Races = map[string]string{}
 	}
 	if _, dup := s.Races[key]; dup {
+		return
+	}
+	if isVar {
+		s.Races[key] = fmt.Sprintf("task %s is about to update a variable in place in %s while task %s is about to update the same variable in %s; nothing orders the two read-modify-write sequences, so one update can be lost (a write-write data race)",
+			t.Name, site, o.Name, o.mapSite)
+		Logf("RACE %s", s.Races[key])
 		return
 	}
 	d := fmt.Sprintf("task %s is about to %s a map in %s while task %s is about to %s the same map in %s; nothing orders the two accesses (Go: fatal error: concurrent map %s)",
